@@ -2,7 +2,7 @@ SPECIFICATION TSpec
 CONSTANTS HiIncl = FALSE
           Addrs = {}
 CONSTRAINT Progress
-INVARIANTS Unique
+INVARIANTS UniqueAssigned
            WrittenInRange
 POSTCONDITION Post
 CHECK_DEADLOCK FALSE
